@@ -43,6 +43,7 @@ struct Th {
     bool scenario = false; int pause_run = 0;
     int wake_pts = 0, start_pts = 3;
     uint64_t first_yield = 1;
+    uint64_t last_ran = 0;            // decision count when this thread last held the baton (fairness)
     SB sb[64]; int nsb = 0;
     pthread_t h{};
     void (*sfn)(void*) = nullptr; void* (*pfn)(void*) = nullptr; void* arg = nullptr;
@@ -64,7 +65,7 @@ static StallSpec stalls[4]; static int nstall = 0;
 static long step_budget = 2000000; static long fix_threshold = 20000;
 static std::vector<int> tape; static size_t tape_pos = 0; static bool record = false;
 static std::vector<int> rec;
-static long pct_change[8]; static int pct_low = 0; static long consec = 0;
+static long pct_change[8]; static int pct_low = 0; static long consec = 0; static uint64_t decisions = 0;
 
 // statistics
 static uint64_t steps = 0, switches = 0, lclock = 0, write_epoch = 1;
@@ -202,7 +203,7 @@ static bool conflicts(Th* a, Th* b) {
 }
 static int pick(int kind) {
     // harness predicates of blocked threads are re-evaluated by the baton holder
-    for (int i = 0; i < nth; i++) if (ths[i]->st == BPRED && ths[i]->pred && (*ths[i]->pred)()) ths[i]->st = RUN;
+    for (int i = 0; i < nth; i++) if (ths[i]->st == BPRED && ths[i]->pred && (*ths[i]->pred)()) { ths[i]->st = RUN; ths[i]->last_ran = decisions; }
     if (solo >= 0) {
         if (ths[solo]->st == RUN) return solo;
         solo_broken = true; solo = -1;     // solo thread had to block: release everybody
@@ -217,6 +218,11 @@ static int pick(int kind) {
     if (me && n > 1 && ++consec > 1000) { yielding = true; consec = 0; }
     bool me_ok = me && me->st == RUN && me->stall <= 0;
     int chosen = -1;
+    // global fairness: a runnable, un-stalled thread that has not run for 4000 decisions goes next (priority strategies
+    // can otherwise starve a non-spinning thread behind several spinners for the whole step budget)
+    ++decisions; if (me) me->last_ran = decisions;
+    if (strat != S_TAPE && tape_pos >= tape.size()) for (int i = 0; i < n; i++) if (decisions - ths[el[i]]->last_ran > 4000 && (!me || el[i] != me->id)) { chosen = el[i]; break; }
+    if (chosen >= 0) { if (record) rec.push_back(chosen); return chosen; }
     if (strat == S_TAPE || tape_pos < tape.size()) {
         if (tape_pos < tape.size()) { int t = tape[tape_pos++]; if (t >= 0 && t < nth && ths[t]->st == RUN) chosen = t; }
         if (chosen < 0) {     // tape exhausted or infeasible: stay, else lowest id; a yielding thread gives way
@@ -342,7 +348,7 @@ extern "C" int vs_solo_end(void) { solo = -1; return solo_broken ? 1 : 0; }
 static void thread_finished() {           // runs on the finishing thread, baton held
     if (vs_tso_on) vs_tso_drain();
     me->st = FINISHED;
-    for (int i = 0; i < nth; i++) if (ths[i]->st == BJOIN && ths[i]->jt == me->id) ths[i]->st = RUN;
+    for (int i = 0; i < nth; i++) if (ths[i]->st == BJOIN && ths[i]->jt == me->id) { ths[i]->st = RUN; ths[i]->last_ran = decisions; }
     if (active) { int n = pick(VSK_BLOCK); switches++; fwake(&ths[n]->go); }
     for (;;) pause();                      // threads never exit inside a case (no key destructors outside the baton)
 }
@@ -355,7 +361,7 @@ static void* tramp(void* p) {
 }
 static Th* new_thread() {
     if (nth >= 500) finish("INCONCLUSIVE", "TOO-MANY-THREADS", "-");
-    Th* t = new Th; t->id = nth; t->st = RUN; t->prio = (rnd() >> 16) | (1ull << 48);
+    Th* t = new Th; t->id = nth; t->st = RUN; t->last_ran = decisions; t->prio = (rnd() >> 16) | (1ull << 48);
     if (strat == S_PCT) t->prio = (rnd() >> 16) | (1ull << 48);
     ths[nth++] = t; n_created++;
     return t;
@@ -425,7 +431,7 @@ extern "C" long vs_syscall(long no, ...) {
         if (op == FUTEX_WAKE) {
             point_pc(addr, VSK_FWAKE, 0);
             int n = 0;
-            for (int i = 0; i < nth && n < (int)a3; i++) if (ths[i]->st == BFUTEX && ths[i]->waddr == addr) { ths[i]->st = RUN; n++; n_fwoken++; }
+            for (int i = 0; i < nth && n < (int)a3; i++) if (ths[i]->st == BFUTEX && ths[i]->waddr == addr) { ths[i]->st = RUN; ths[i]->last_ran = decisions; n++; n_fwoken++; }
             if (n) write_epoch++;
             return n;
         }
